@@ -27,6 +27,7 @@ type Obligation struct {
 	Func    string
 	Probe   bool // vacuity probe: expected sat
 	replayed bool
+	fv *FuncVC
 	// results
 	Res    SolveResult
 	Status string // discharged, failed, unknown, probe-ok, probe-failed
@@ -169,6 +170,8 @@ type FuncVC struct {
 	params     map[string]Val
 	streamAppend func(r, d, x Term, xv ssa.Value, pos token.Pos)
 	inGlobalInv bool
+	replayTemplate string
+	replayArgs []replayArg
 	results    []Val
 }
 
@@ -250,8 +253,11 @@ func (fv *FuncVC) oblige(kind, detail string, props []string, pos token.Pos, goa
 	if props == nil && fv.C != nil {
 		props = fv.C.Props
 	}
+	if !pos.IsValid() {
+		pos = fv.curPos()
+	}
 	o := &Obligation{Name: name, Kind: kind, Props: props, Pos: pos, Where: fv.P.relPos(pos), Src: src,
-		NAssert: len(fv.asserts), Reach: fv.curReach, Goal: goal, Func: fv.Name}
+		NAssert: len(fv.asserts), Reach: fv.curReach, Goal: goal, Func: fv.Name, fv: fv}
 	fv.obls = append(fv.obls, o)
 	return o
 }
@@ -424,8 +430,12 @@ func (fv *FuncVC) wf(t Term, gt types.Type) string {
 		}
 	case KBytes, KSlice:
 		z := fv.ilit(0)
+		mx := "true"
+		if fv.Mode == ModeInt {
+			mx = smtAnd(app("<", fv.capOf(t), pow2(62)), app("<", fv.offOf(t), pow2(62)))
+		}
 		return smtAnd(fv.ile(z, fv.lenOf(t)), fv.ile(fv.lenOf(t), fv.capOf(t)), fv.ile(z, fv.offOf(t)),
-			app(">=", fv.baseOf(t), "0"))
+			app(">=", fv.baseOf(t), "0"), mx)
 	case KIface:
 		return smtAnd(app(">=", app("Iface_tag", t.S), "0"), smtImp(app("=", app("Iface_tag", t.S), "0"), app("=", app("Iface_ref", t.S), "0")))
 	case KStruct:
